@@ -72,6 +72,24 @@ before `t`: "every wakeup entry added (to any level) is `≥ t`". -/
 def WakeNew (t : SimTime) (st st' : SimSt) : Prop :=
   ∀ l e, e ∈ (st'.sched l).wake → e ∈ (st.sched l).wake ∨ t ≤ e.2
 
+/-- what `SystemComponent.on_tick` → `NestedScheduler.on_tick` does to the bookkeeping of the
+nested level `c` before its inner tick at time `t` (the system branch of `tickLoop`): the due
+wakeups (`≤ t`) are removed, the queued interrupts are taken. -/
+def nestedPrep (st : SimSt) (c : Comp) (t : SimTime) : SimSt :=
+  { st with scheds := (upsert st.scheds c
+      ⟨delWakeups (st.sched c).wake (nestedDue (st.sched c).wake t), [], true⟩) }
+
+/-- executable check of `RunNoPast` (for `#guard`) -/
+def runNoPastB (orc : Oracle) (st : SimSt) : Bool :=
+  (st.obs.map (·.comp)).all fun c =>
+    let os := st.obs.filter (fun o => o.comp == c)
+    (List.range os.length).all fun k =>
+      match (agetD orc c [])[k]?, os[k]? with
+      | some r, some o => (match r.callAt with
+        | some w => decide (o.time ≤ w)
+        | none => true)
+      | _, _ => true
+
 /-- post-condition of one tick of one level at time `t` -/
 def LevelOK (orc : Oracle) (t : SimTime) (st st' : SimSt) : Prop :=
   st.Ext st' ∧ (st.Good → st'.Good ∧ (RunNoPast orc st' → WakeNew t st st'))
@@ -348,6 +366,47 @@ theorem firstWakeups_mem (w : Wakeups) (m : SimTime) (h : (firstWakeups w).2 = s
   obtain ⟨h1, h2⟩ := minTime_spec _ _ h
   obtain ⟨e, he, hem⟩ := List.mem_map.1 h1
   exact ⟨⟨e, he, hem⟩, fun e he => h2 _ (List.mem_map.2 ⟨e, he, rfl⟩)⟩
+
+theorem nestedPrep_ok (st : SimSt) (c : Comp) (t : SimTime) (hg : st.Good) :
+    (nestedPrep st c t).Good ∧ (∀ e ∈ ((nestedPrep st c t).sched c).wake, t < e.2) ∧
+    WakeNew t st (nestedPrep st c t) := by
+  refine ⟨⟨hg.count, fun l => ?_⟩, fun e he => ?_, fun l e he => ?_⟩
+  · unfold nestedPrep
+    rw [SimSt.sched_upsert]
+    split
+    · exact delWakeups_unique' _ (hg.wakeU c) _
+    · exact hg.wakeU l
+  · unfold nestedPrep at he
+    rw [SimSt.sched_upsert, if_pos rfl] at he
+    exact due_removed _ (hg.wakeU c) t e he
+  · unfold nestedPrep at he
+    rw [SimSt.sched_upsert] at he
+    split at he
+    · rename_i hl
+      subst hl
+      exact Or.inl (mem_delWakeups _ _ _ he)
+    · exact Or.inl he
+
+theorem runNoPastB_sound (orc : Oracle) (st : SimSt) (h : runNoPastB orc st = true) :
+    RunNoPast orc st := by
+  intro c k w ⟨r, hr, hrw⟩ o ho
+  have hk : k < (st.obs.filter (fun o => o.comp == c)).length := by
+    apply Classical.byContradiction
+    intro hk
+    rw [List.getElem?_eq_none (by omega)] at ho
+    cases ho
+  have hom : o ∈ st.obs.filter (fun o => o.comp == c) := List.mem_of_getElem? ho
+  obtain ⟨hom1, hom2⟩ := List.mem_filter.1 hom
+  have hc : c ∈ st.obs.map (·.comp) := List.mem_map.2 ⟨o, hom1, by simpa using hom2⟩
+  unfold runNoPastB at h
+  rw [List.all_eq_true] at h
+  have h1 := h c hc
+  simp only [] at h1
+  rw [List.all_eq_true] at h1
+  have h2 := h1 k (List.mem_range.2 hk)
+  rw [hr, ho] at h2
+  simp only [hrw, decide_eq_true_eq] at h2
+  exact h2
 
 theorem AnsOK.of_eq (orc : Oracle) (t : SimTime) (st : SimSt) : AnsOK orc t st st none :=
   ⟨SimSt.Ext.refl st, fun hg => ⟨hg, fun _ => ⟨WakeNew.refl t st, fun w hw => by cases hw⟩⟩⟩
@@ -730,6 +789,29 @@ theorem delMaster_ok (st : SimSt) (cs : List Comp) (hg : st.Good) :
     · rename_i hl; subst hl
       exact mem_delWakeups _ _ _ he
     · exact he
+
+theorem good_empty : ({} : SimSt).Good :=
+  ⟨fun _ => rfl, fun _ => List.nodup_nil⟩
+
+/-- the initial tick leaves the master in an `OK` state -/
+theorem masterInitial_ok (S : Static) (orc : Oracle) (fuel : Nat) (t0 : SimTime) (now : Int)
+    (m : MasterSt) (tr : TickRec) (h : masterInitial S orc fuel t0 now = .ok (m, tr))
+    (hnp : RunNoPast orc m.sim) : m.OK ∧ tr.time = m.tickerTime := by
+  unfold masterInitial at h
+  split at h
+  · cases h
+  · simp only [] at h
+    split at h
+    · cases h
+    · rename_i st out hr
+      simp only [Except.ok.injEq, Prod.mk.injEq] at h
+      obtain ⟨rfl, rfl⟩ := h
+      obtain ⟨_, hlev⟩ := tickLevel_ok S orc _ _ _ _ _ _ _ _ hr
+      obtain ⟨hg, hnew⟩ := hlev good_empty
+      refine ⟨⟨hg, fun e he => ?_, Int.le_refl _⟩, rfl⟩
+      rcases hnew hnp "" e he with h1 | h1
+      · cases h1
+      · exact h1
 
 /-- **the whole run**: observations only grow; and if the master starts in an `OK` state and the
 ticks recorded so far are in order and not after the ticker time, so are all ticks of the run. -/
